@@ -89,6 +89,42 @@ func (g *Gen) coef() *big.Int {
 			b[i] = '0'
 		}
 		c.SetString(string(b), 10)
+	case 8: // a quotient by a power of ten sits at a binary word boundary
+		// (digit extraction divides repeatedly; the words of the intermediate
+		// quotients, not of the input, are what a narrow division sees)
+		x := new(big.Int)
+		switch g.R.N(3) {
+		case 0:
+			x.SetUint64(uint64(g.R.N(1000)))
+		case 1:
+			x.SetUint64(g.R.U64() >> uint(g.R.N(64)))
+		default:
+			x.SetUint64(uint64(g.R.N(100)))
+		}
+		x.Lsh(x, 64)
+		var lo uint64
+		d := uint64(g.R.N(2048))
+		switch g.R.N(4) {
+		case 0:
+			lo = d
+		case 1:
+			lo = 1<<63 - 1024 + d
+		case 2:
+			lo = 1<<32 - 1024 + d
+		default:
+			lo = -d - 1
+		}
+		x.Add(x, new(big.Int).SetUint64(lo))
+		k := 0
+		if room := 34 - ref.NumDigits(x); room > 0 {
+			k = g.R.N(room + 1)
+		}
+		c.Mul(x, ref.Pow10(k))
+		if k > 0 {
+			r := new(big.Int)
+			r.SetString(g.digits(k), 10)
+			c.Add(c, r)
+		}
 	default:
 		c.SetString(g.digits(g.coefLen()), 10)
 	}
@@ -279,7 +315,7 @@ func (g *Gen) ValidLiteral(scan bool, underscores bool) string {
 		b.WriteByte("+-"[g.R.N(2)])
 	}
 	us := underscores && g.R.P(1, 4)
-	switch g.R.N(8) {
+	switch g.R.N(9) {
 	case 0: // exact tie or near-tie at the 34/35 digit boundary
 		l := g.R.Range(33, 35)
 		b.WriteString(g.digits(l))
@@ -296,6 +332,21 @@ func (g *Gen) ValidLiteral(scan bool, underscores bool) string {
 	case 1: // leading zeros
 		b.WriteString(strings.Repeat("0", g.R.Range(1, 50)))
 		b.WriteString(g.litDigits(g.litLen(), us))
+	case 4: // decimal expansions around powers of two (word boundaries of binary accumulators)
+		k := []uint{32, 53, 63, 64, 96, 113, 127, 128, 129, 192, 256}[g.R.N(11)]
+		c := new(big.Int).Lsh(big.NewInt(1), k)
+		switch g.R.N(4) {
+		case 0:
+			c.Sub(c, big.NewInt(int64(g.R.Range(1, 3))))
+		case 1:
+			c.Add(c, new(big.Int).Lsh(big.NewInt(int64(g.R.N(100))), 64))
+		case 2:
+			c.Add(c, big.NewInt(int64(g.R.N(1000))))
+		}
+		b.WriteString(c.String())
+		if g.R.P(1, 2) {
+			b.WriteString(g.litDigits(g.R.N(6), false))
+		}
 	case 2: // coefficient around CMax
 		c := new(big.Int).Add(ref.CMax, big.NewInt(int64(g.R.Range(-3, 3))))
 		b.WriteString(c.String())
@@ -531,6 +582,9 @@ func (g *Gen) BigInt(maxBits int) *big.Int {
 		bits = 113 + g.R.Range(-3, 3)
 	default:
 		bits = g.R.N(maxBits + 1)
+		if g.heavy && maxBits >= 20000 && g.R.P(1, 3) {
+			bits = g.R.Range(20000, 130000) // far beyond the range: must still be +-Inf
+		}
 	}
 	if bits <= 0 {
 		return new(big.Int)
